@@ -2,7 +2,8 @@
    usage: c11_run.native            one case per line on stdin, one result line per case
           c11_run.native keywords   prints the committed keyword table, one name per line
           c11_run.native old        like the default, but runs the pre-F5-fix lexer (lex_all_old)
-   case : `U <code points>` (text) or `L <bytes>` (file decoded as ISO-8859-1)
+   case : `U <code points>` (text) or `L <bytes>` (file decoded as ISO-8859-1); `B ...` (descriptor of a large
+          file built by the harness: checked by the harness oracle only) is answered with `||SKIP`
    result: `tokens|diagnostics|flat`
      tokens      = `;`-joined  kind,value,sl:sc-el:ec,leading comments joined by +,trailing comment or -
      diagnostics = `;`-joined  E,code,sl:sc-el:ec
@@ -68,6 +69,7 @@ let () =
         match Stdlib.String.index_opt ln ' ' with
         | Some i -> Stdlib.String.sub ln 0 i, Stdlib.String.sub ln (i + 1) (Stdlib.String.length ln - i - 1)
         | None -> ln, "" in
+      if tag = "B" then print_endline "||SKIP" else
       let cs = ns_of_string rest in
       let o =
         if tag = "L" then lex_latin1_file cs
